@@ -235,7 +235,7 @@ func (c *c03) Judge(cx *Ctx, it *Item, outs []*run.Outcome) Verdict {
 	if err := decodeMeta(it, &m); err != nil {
 		return Verdict{Status: Inconclusive, Msg: err.Error()}
 	}
-	o, err := m.refRun(400000, ref.Options{})
+	o, err := m.refRun(m.RefBudget, ref.Options{})
 	if err != nil {
 		return Verdict{Status: Inconclusive, Msg: err.Error()}
 	}
